@@ -486,11 +486,10 @@ def main_run(prop_id: str, tier: str, replay: Optional[str] = None) -> int:
         "replayed_witnesses": n_replayed,
         "shards": shards,
         "examples_per_shard": nexamples,
-        "exhaustive_stratum_evaluations": ex_evals,
-        "exhaustive": bool(ex_shards) and bool(getattr(mod, "EXHAUSTIVE_NOTE", "")),
+        "exhaustive": False,  # the property's own domain is infinite; see exhaustive_stratum for the finite part enumerated completely
     }
-    if getattr(mod, "EXHAUSTIVE_NOTE", ""):
-        cov["exhaustive_note"] = mod.EXHAUSTIVE_NOTE
+    if getattr(mod, "EXHAUSTIVE_NOTE", "") and ex_shards:
+        cov["exhaustive_stratum"] = {"enumerated_completely": True, "what": mod.EXHAUSTIVE_NOTE, "evaluations": ex_evals}
     if fuzz_info is not None:
         cov["coverage_guided_supplement"] = fuzz_info
     ev = {
